@@ -67,6 +67,7 @@ func (s *sxState) implies(g Lin) bool {
 }
 
 type sxCtx struct {
+	stackVar, spVar *types.Var
 	c     *Ctx
 	info  *types.Info
 	recv  string
@@ -85,6 +86,7 @@ func stackHelperDelta(c *Ctx, info *types.Info, fd *ast.FuncDecl) (Lin, string) 
 		return Lin{}, "no named receiver"
 	}
 	x := &sxCtx{c: c, info: info, recv: fd.Recv.List[0].Names[0].Name, fn: declName(fd)}
+	x.stackVar, x.spVar = valueStackFields(c)
 	fresh := 0
 	s0 := &sxState{env: map[string]Lin{}, spNow: linAtom("SP"), lenNow: linAtom("LEN"), fresh: &fresh}
 	s0.facts = append(s0.facts, sxFact{linAtom("SP").Sub(linAtom("LEN"))})
@@ -125,8 +127,95 @@ func stackHelperDelta(c *Ctx, info *types.Info, fd *ast.FuncDecl) (Lin, string) 
 	return d, ""
 }
 
-func (x *sxCtx) isStack(e ast.Expr) bool { return isSel(e, x.recv, "stack") }
-func (x *sxCtx) isSP(e ast.Expr) bool    { return isSel(e, x.recv, "sp") }
+func (x *sxCtx) isStack(e ast.Expr) bool { return selIsField(x.info, e, x.stackVar) }
+func (x *sxCtx) isSP(e ast.Expr) bool    { return selIsField(x.info, e, x.spVar) }
+
+// selIsField: e selects the given struct field (directly or through promotion).
+func selIsField(info *types.Info, e ast.Expr, f *types.Var) bool {
+	se, ok := stripParens(e).(*ast.SelectorExpr)
+	if !ok || f == nil {
+		return false
+	}
+	if sel, ok := info.Selections[se]; ok {
+		return sel.Obj() == types.Object(f)
+	}
+	return false
+}
+
+// valueStackFields: the value stack of the VM by role: a []value field and an int field of the same struct (the
+// interpreter or a component struct of it) such that the slice is indexed or sliced by an expression that mentions
+// the int field - the pair used most often.
+func valueStackFields(c *Ctx) (stack, sp *types.Var) {
+	if r, ok := c.memo["valueStackFields"].([2]*types.Var); ok {
+		return r[0], r[1]
+	}
+	ip := c.pkg("interp")
+	if ip == nil {
+		return nil, nil
+	}
+	info := ip.TypesInfo
+	type pair struct{ a, b *types.Var }
+	count := map[pair]int{}
+	for _, fd := range c.allFuncDecls("interp") {
+		if fd.Body == nil {
+			continue
+		}
+		ast.Inspect(fd.Body, func(n ast.Node) bool {
+			var base ast.Expr
+			var idx []ast.Expr
+			switch e := n.(type) {
+			case *ast.IndexExpr:
+				base, idx = e.X, []ast.Expr{e.Index}
+			case *ast.SliceExpr:
+				base, idx = e.X, []ast.Expr{e.Low, e.High}
+			default:
+				return true
+			}
+			se, ok := base.(*ast.SelectorExpr)
+			if !ok {
+				return true
+			}
+			sel, ok := info.Selections[se]
+			if !ok {
+				return true
+			}
+			fv, ok := sel.Obj().(*types.Var)
+			if !ok || !fv.IsField() {
+				return true
+			}
+			sl, ok := fv.Type().Underlying().(*types.Slice)
+			if !ok || !isNamed(sl.Elem(), modPath+"/interp", "value") || !isInterp(sel.Recv()) {
+				return true
+			}
+			for _, ie := range idx {
+				if ie == nil {
+					continue
+				}
+				ast.Inspect(ie, func(m ast.Node) bool {
+					if s2, ok := m.(*ast.SelectorExpr); ok {
+						if sel2, ok := info.Selections[s2]; ok {
+							if gv, ok := sel2.Obj().(*types.Var); ok && gv.IsField() && isInterp(sel2.Recv()) {
+								if b, ok := gv.Type().Underlying().(*types.Basic); ok && b.Kind() == types.Int {
+									count[pair{fv, gv}]++
+								}
+							}
+						}
+					}
+					return true
+				})
+			}
+			return true
+		})
+	}
+	best, bestN := pair{}, 0
+	for p, n := range count {
+		if n > bestN || (n == bestN && best.a != nil && p.a.Name() < best.a.Name()) {
+			best, bestN = p, n
+		}
+	}
+	c.memo["valueStackFields"] = [2]*types.Var{best.a, best.b}
+	return best.a, best.b
+}
 
 func (x *sxCtx) lin(s *sxState, e ast.Expr) (Lin, bool) {
 	switch v := e.(type) {
@@ -442,12 +531,11 @@ func ruleStackIdx(c *Ctx) {
 		return
 	}
 	info := ip.TypesInfo
-	_, st := c.structType("interp", "interp")
-	if st == nil || fieldByName(st, "stack") == nil || fieldByName(st, "sp") == nil {
-		c.undecided("anchor:interp.stack", token.NoPos, "fields stack/sp of struct interp not found")
+	stackVar, spVar := valueStackFields(c)
+	if stackVar == nil || spVar == nil {
+		c.undecided("anchor:interp.stack", token.NoPos, "the value stack of the interpreter (a []value field indexed through an int field of the same struct) was not found")
 		return
 	}
-	stackVar := fieldByName(st, "stack")
 	helpers, totalObls := 0, 0
 	countParams := map[string]bool{}
 	for _, fd := range c.allFuncDecls("interp") {
@@ -480,7 +568,7 @@ func ruleStackIdx(c *Ctx) {
 			continue
 		}
 		helpers++
-		x := &sxCtx{c: c, info: info, recv: fd.Recv.List[0].Names[0].Name, fn: declName(fd)}
+		x := &sxCtx{c: c, info: info, recv: fd.Recv.List[0].Names[0].Name, fn: declName(fd), stackVar: stackVar, spVar: spVar}
 		fresh := 0
 		s0 := &sxState{env: map[string]Lin{}, spNow: linAtom("SP"), lenNow: linAtom("LEN"), fresh: &fresh}
 		s0.facts = append(s0.facts, sxFact{linAtom("SP").Sub(linAtom("LEN"))}) // invariant
